@@ -30,6 +30,8 @@ TEXT = {
          "trait-level contracts and conversion/comparison axioms assumed (listed); log2_inner and cordic_rotation (iterator adapters) and tan: Kani per instantiated type"),
  "C13": ("Verus verifies the real generic sqrt, for every supported pair of types, against the integer bracket (r - 4)^2 <= X * 2^F <= (r + 4)^2 (|r - sqrt x| <= 4 ulp), exactness at 0 and 1, non-negativity, and Err only for negative operands / unrepresentable reciprocals: the Newton loop carries the invariant that the distance to the integer square root at least halves per step, the reciprocal path a nonlinear bracket lemma; all lemmas machine-checked, no admit",
          "trait-level contracts of Fixed and the conversion / comparison axioms are assumed here (proved in other units / by Kani); holds for the tree with the trip-count fix 164c3b4 (known_findings.json) - the pre-fix loop count fails the final-step obligation; no SAT twin (64-bit dividers), so violations come without a failing input"),
+ "C15": ("PARTIAL, level other: Verus proves, on the real generic powi and pow for every supported type pair and every i32 exponent, the clauses a contract can express - the powi error bound |r * one^(n-1) - X^n| <= (n - 1) * max(one, |X|)^(n-1) (implies the stated (|n|+1) ulp * max(1,|x|)^(|n|-1)), the truncated-reciprocal form for negative exponents, and the conventions 0^y = 0, x^0 = 1, x^1 = x of pow and powi.  The exp / pow accuracy clauses need e^x and x^y over the reals and are not decided by any contract within reach; they are listed as not covered rather than sampled",
+         "exp and pow accuracy: not covered (a change that only degrades their accuracy passes this check); trait-level contracts and conversion axioms assumed (listed)"),
  "C17": ("Verus: a ghost iteration counter (R14) in sqrt, exp and sin, generic over every supported type, with `assert(vticks <= 4*w+64)` at every exit and `decreases bound - vticks` on while/loop; Kani asserts the hook iteration counter <= 4*width+64 after every call (whole domain on I9F23, I32F32 in thorough)",
          "counter hook lines in transcendental.rs (guarded); log2_inner / cordic_rotation counted by Kani per type only; the sin range-reduction defect was fixed"),
  "C10": ("Kani runs the real parity-scale-codec derive for one alias per family over all bit patterns: encode == to_le_bytes == encoding of the bits, max_encoded_len, decode round trip, short input fails, byte views inverse",
@@ -39,7 +41,6 @@ TEXT = {
 }
 NA = {
  "C14": "oracle is log2/ln of a real number: no contract in Verus (no real analysis) or CBMC can express it (DESIGN.md §6)",
- "C15": "the accuracy clauses need e^x and x^y over the reals (not expressible in either back end); the decidable conventions 0^y = 0, x^0 = 1, x^1 = x of pow / powi are postconditions proved under C12; the (|n|+1)-ulp clause of powi was not brought under contract",
  "C16": "oracle is sin/cos/tan of a real number: not expressible in either back end (DESIGN.md §6)",
 }
 WIP = "check not built yet in this revision (work in progress, see DESIGN.md §10)"
